@@ -50,10 +50,6 @@ Variable st : Z -> nat -> Q.
 Variable O : oracles.
 Let OC := O_cf fuel st O.
 
-(* a process state as import leaves it, as far as find_cuts can see *)
-Definition import_state (g : gstate) : Prop :=
-  action_registry g = import_registry /\ funcs_lo g = import_funcs.
-
 Lemma import_state_run : forall g h, import_state g -> import_state (run OC g h).
 Proof.
   intros g h [H1 H2]. pose proof (run_registries OC h g) as R. unfold registries in R.
